@@ -531,6 +531,7 @@ class Report:
             "functions_in_package": self.repo.n_functions(),
             "functions_analysed": sorted(self.analysed_funcs)[:400],
             "n_functions_analysed": len(self.analysed_funcs),
+            "files_with_rule_instances": sorted({i["file"] for i in self.instances if i.get("file") and i["file"].endswith(".py")}),
             "repo_root": str(self.repo.root),
             "source_digest": self.repo.digest()[:16],
             "exhaustive": True,
